@@ -256,8 +256,8 @@ theorem spec_reads_rows (m : XMap) (w2 w3 : Nat) (rest : Bytes) (k : Nat) : ∀ 
     have hlen := C02fio.xrefRow_length w2 w3 (m.get i)
     have ht := rowFields_type_lt (m.get i)
     simp only [xrefRows, List.flatten_cons, List.append_assoc, Spec.FileWF.xrefRows]
-    have h1 : ¬ ((xrefRow w2 w3 (m.get i) ++ ((xrefRows m w2 w3 (i + 1) k).flatten ++ rest)).length < 1 + w2 + w3) := by
-      simp [hlen]
+    have h1 : ¬ (((xrefRow w2 w3 (m.get i) ++ ((xrefRows m w2 w3 (i + 1) k).flatten ++ rest)).take (1 + w2 + w3)).length < 1 + w2 + w3) := by
+      rw [List.take_left' hlen, hlen]; omega
     simp only [h1, ↓reduceIte]
     -- the three fields of the row
     have hrow : xrefRow w2 w3 (m.get i) = [(rowFields (m.get i)).1] ++ encodeInt64 (rowFields (m.get i)).2.1 w2
@@ -366,9 +366,9 @@ theorem spec_unpredict_up (cols : Nat) (rows : List Bytes) : ∀ (prev : Bytes) 
         simp [hrl, hp]
       simp only [pngUpEnc, upRow, List.cons_append, Spec.FileWF.unpredict]
       have h0 : ¬ ((2 : Nat) > 4) := by omega
-      have h1 : ¬ ((List.zipWith (fun x p => (x + 256 - p % 256) % 256) row prev ++ pngUpEnc row rest).length < cols) := by
-        simp [hz]
-      simp only [h0, h1, ↓reduceIte, List.take_left' hz, List.drop_left' hz]
+      have h1 : ¬ ((List.zipWith (fun x p => (x + 256 - p % 256) % 256) row prev).length < cols) := by
+        rw [hz]; omega
+      simp only [h0, ↓reduceIte, List.take_left' hz, List.drop_left' hz, h1]
       rw [spec_unfilterRow_up row prev 0 0 (by rw [hrl, hp]) hrb]
       rw [ih row f hrl (fun r hr' => hr r (by simp [hr'])) (by
         simp only [pngUpEnc, upRow, List.length_cons, List.length_append] at hf; omega)]
